@@ -169,6 +169,18 @@ CHECKS = {
             "By-value semantics for JSON (a float32 may come back as a Python float with the same number); lists containing arrays and tuples are not generated.",
             "round-trip oracle with independent canonical-form comparison over generated objects",
             "DESIGN.md §5 C17"),
+    "C05": ("exploration",
+            "A ProbeRunner subclass implements only the documented extension points (_run_simulation, _keep_going, "
+            "_on_simulate_current_params_start), logs every call and tags every successful repetition with a unique id carried in an "
+            "accumulating Result.  A 40-line reference model (row-major product over sorted unpacked names, do-while repetition loop, "
+            "skips never counted) predicts the call trace, the ids merged per variation, repetition counts and skip counts for generated "
+            "grids (0-3 unpacked parameters), rep_max values, early-stop predicates and SkipThisOne patterns (incl. the first attempt of "
+            "a variation); the trace and stored results must match exactly, results are looked up by random fixed-value subsets "
+            "(get_pack_indexes / get_result_values_list vs brute force), every runner is simulated twice (no carry-over), and "
+            "single-variation mode is checked against its partial-results file.",
+            "Serial simulate() only (ipyparallel is not installed); values are dyadic so merged sums compare with ==.",
+            "instrumented subclass trace + executable reference model, exactly-once ids",
+            "DESIGN.md §5 C05"),
 }
 
 PENDING_REASON = "check not built yet in this session (design in DESIGN.md §5); will be claimed once its monitors run clean on the unchanged tree"
